@@ -1321,6 +1321,29 @@ func ruleL19(c *Ctx) {
 			}
 		}
 		c.check(rn >= 1, "L19", "readAssets|returns found", c.L.Pos(ra.Pos()), fmt.Sprintf("%d", rn))
+		// the bytes given to the decoder are the file's bytes: no byte-level rewriting before the
+		// decoding (a rewrite that looks for 0x5C, 0x0A … also matches the second byte of
+		// Shift_JIS characters)
+		nrw := 0
+		for _, g := range unitOf(ra, 2) {
+			callsIn(g, func(ci ssa.CallInstruction) {
+				callee := ci.Common().StaticCallee()
+				if callee == nil || callee.Pkg == nil || callee.Signature.Recv() != nil {
+					return
+				}
+				pk := callee.Pkg.Pkg.Path()
+				if pk != "bytes" && pk != "strings" && pk != "regexp" {
+					return
+				}
+				switch callee.Name() {
+				case "Equal", "HasPrefix", "HasSuffix", "Contains", "Index", "IndexByte", "NewReader", "NewBuffer", "NewBufferString", "Compare", "EqualFold", "Count":
+					return // read-only
+				}
+				nrw++
+				c.fail("L19", fmt.Sprintf("%s|%s.%s on the source bytes#%d", shortName(g), pk, callee.Name(), nrw), c.L.Pos(instrPos(ci)), "the source is rewritten with "+pk+"."+callee.Name()+" on its way through readAssets: on undecoded Shift_JIS text a byte pattern also matches inside two-byte characters, and what reaches the parser is no longer what was written")
+			})
+		}
+		c.ok("L19", "readAssets|source bytes reach the decoder unchanged", c.L.Pos(ra.Pos()), fmt.Sprintf("%d rewriting calls", nrw))
 	}
 	c.floor("L19", 4)
 }
